@@ -832,6 +832,8 @@ func (fr *Frame) backEdge(li *loopInfo, u *ssa.BasicBlock, reach string, st *Sta
 	if fr.contract != nil && len(fr.contract.Asserts) > 0 {
 		save := fr.curBlock
 		fr.curBlock = u
+		// ghost assignments at this anchor concern this back edge only: work on a copy of the state
+		st = st.clone()
 		fr.anchor(fmt.Sprintf("end of loop %d", li.ord), &blockCtx{st: st, reach: reach}, nil)
 		fr.curBlock = save
 	}
